@@ -63,3 +63,139 @@ Example c01_ws_nonvacuous :
   ws_reads {| pending := []; queue := ws_write 4 (write_fuel [1;2;3;4;5;6;7;8;9]) [1;2;3;4;5;6;7;8;9] |} [3; 3; 10; 1]
   = ([[1;2;3]; [4]; [5;6;7;8]; [9]], {| pending := []; queue := [] |}).
 Proof. reflexivity. Qed.
+
+From SA Require Import Codec.Codec Queue.Queues Queue.Link Queue.Link_proofs Queue.WireLink Queue.WireGlue_proofs Queue.WireLink_proofs.
+From SA Require Wire.Name Wire.Requests Wrap.Wrap.
+Local Open Scope nat_scope.
+
+(* ------------------------------------------------------------------------------------------------------------------------------
+   The DNS carrier, end to end at wire level (Queue/WireLink.v; proofs Queue/WireGlue_proofs.v, Queue/WireLink_proofs.v).
+   The system: the client's two queues and the server session's two queues; every query that leaves the client is the OCTET STRING
+   of the packed question (PacketRequest -> upstream codec -> PrepareHostname/Dotify -> the DNS library's name packing: the C09
+   pipeline), every answer that leaves the server is the PACKED MESSAGE (PacketResponse or its error form -> downstream codec ->
+   answer records of the asked type -> Msg.Pack: the C10 pipeline); the server reads a query by unpacking, stripping the domain and
+   decoding, the client reads an answer by unpacking, unwrapping and decoding; a message that cannot be read fails the exchange.
+   The network keeps every packed query and answer and delivers any of them, any number of times, at any later point.
+   params_ok P fd: a tunnel domain (labels of [a-z0-9-], at most 200 octets), one of the six upstream codecs the client can commit
+   to, a (record type, downstream codec) pair that carries (all but A and AAAA; Raw only on NULL, PRIVATE, TXT), a user id below
+   1296, and a downstream fragment size fd one answer can carry (fd_ok: every fd up to 10 000 qualifies, c01_dns_fragment_bound).
+   wire_admissible P fd A W ws evs: the data written are octets, the client writes with a fragment size of at most getUpstreamMtu
+   and the server of at most fd, both positive, at most W chunks per write; a delivered message is at most A message formations old
+   (A + W + 128 <= 65536: the age bound of C07, which 16-bit numbers make unavoidable). *)
+
+(* The wire-level run refines the abstract run of C07: same queues, same byte histories, same observations; the stored questions
+   and answers decode, position by position, to the abstract queries and answers. *)
+Theorem c01_dns_wire_refines : forall P fd A W c0 s0 evs,
+  params_ok P fd = true -> (N.of_nat A + N.of_nat W + SLACK <= M)%N ->
+  wire_admissible P fd A W (winit c0 s0) evs = true ->
+  let ws := fst (wrun P (winit c0 s0) evs) in let wos := snd (wrun P (winit c0 s0) evs) in
+  let s := fst (Link.run (Link.init c0 s0) (map abs_ev evs)) in let os := snd (Link.run (Link.init c0 s0) (map abs_ev evs)) in
+  admissible A W (Link.init c0 s0) (map abs_ev evs) = true /\
+  base ws = clear s /\ Forall2 (q_rel P) (wqueries ws) (queries s) /\ Forall2 (a_rel P) (wanswers ws) (answers s) /\
+  map abs_obs wos = os /\ map w_is_err wos = map is_err os.
+Proof. exact wire_refines. Qed.
+Print Assumptions c01_dns_wire_refines.
+
+(* FIDELITY.  Whatever the payload octets, the total length, the cutting into writes and fragments, and whatever the network loses,
+   duplicates, delays or replays (within the age bound): what each end has read, followed by what is buffered for it, is a prefix of
+   what the other end's writes accepted - nothing lost in the middle, duplicated, reordered or altered, in both directions, for
+   histories of any length (the 16-bit wrap is inside) and all starting sequence numbers. *)
+Theorem c01_dns_wire_fidelity : forall P fd A W c0 s0 evs,
+  params_ok P fd = true -> (N.of_nat A + N.of_nat W + SLACK <= M)%N ->
+  wire_admissible P fd A W (winit c0 s0) evs = true ->
+  let b := base (fst (wrun P (winit c0 s0) evs)) in
+  Link_proofs.prefix (rev (rd_s b) ++ in_buf (s_in b)) (rev (acc_c b)) /\
+  Link_proofs.prefix (rev (rd_c b) ++ in_buf (c_in b)) (rev (acc_s b)).
+Proof. exact wire_prefix. Qed.
+Print Assumptions c01_dns_wire_fidelity.
+
+(* A Write that has returned (its queue has drained) has all its octets at the peer. *)
+Theorem c01_dns_wire_not_lost : forall P fd A W c0 s0 evs,
+  params_ok P fd = true -> (N.of_nat A + N.of_nat W + SLACK <= M)%N ->
+  wire_admissible P fd A W (winit c0 s0) evs = true ->
+  let b := base (fst (wrun P (winit c0 s0) evs)) in lost_c b = false /\ lost_s b = false.
+Proof. exact wire_not_lost. Qed.
+Print Assumptions c01_dns_wire_not_lost.
+
+(* No message of the tunnel fails to be formed, packed, unpacked or decoded, and isolated losses, duplicates and late deliveries
+   (within RECENT = 128 message formations) never surface as an error at either end. *)
+Theorem c01_dns_wire_no_false_error : forall P fd A W c0 s0 evs,
+  params_ok P fd = true -> A <= RECENT -> (N.of_nat A + N.of_nat W + SLACK <= M)%N ->
+  wire_admissible P fd A W (winit c0 s0) evs = true ->
+  forallb (fun o => negb (w_is_err o)) (snd (wrun P (winit c0 s0) evs)) = true.
+Proof. exact wire_no_false_error. Qed.
+Print Assumptions c01_dns_wire_no_false_error.
+
+(* COMPLETENESS.  Once the path stops losing, everything accepted arrives: after k faithful exchanges through the wire (k at least
+   twice the number of queued chunks plus two) both queues are empty and what each end has read or holds buffered IS what the other
+   end's writes accepted. *)
+Theorem c01_dns_wire_complete : forall P fd A W c0 s0 evs k r,
+  params_ok P fd = true -> (N.of_nat A + N.of_nat W + SLACK <= M)%N ->
+  wire_admissible P fd A W (winit c0 s0) evs = true -> Requests.cache_ok r = true ->
+  let ws := fst (wrun P (winit c0 s0) evs) in
+  k >= 2 * (List.length (out_q (c_out (base ws))) + List.length (out_q (s_out (base ws)))) + 2 ->
+  let b := base (w_pump P ws true k 0 0%N r) in
+  out_q (c_out b) = [] /\ out_q (s_out b) = [] /\
+  rev (rd_s b) ++ in_buf (s_in b) = rev (acc_c b) /\ rev (rd_c b) ++ in_buf (c_in b) = rev (acc_s b).
+Proof. exact wire_progress. Qed.
+Print Assumptions c01_dns_wire_complete.
+
+(* The two halves the refinement rests on, for every message the endpoints can form (not only those of a run): a query survives
+   the wire, and the name the server finds in it is a name it can put on its answer; an answer survives the wire. *)
+Theorem c01_dns_query_survives : forall P,
+  Name.dom_ok (wp_dom P) = true -> Requests.selectable_up (wp_cu P) = true -> (wp_uid P < 1296)%N -> forall ack p r,
+  Requests.cache_ok r = true -> (ack < 65536)%N -> ochunk_ok (Requests.upstream_mtu (wp_dom P) (wp_cu P)) p ->
+  exists wq qname,
+    form_query P ack p r = Ok wq /\
+    decode_query P wq = Ok (qname, Wrap.rtype_code (wp_rt P), Requests.RPacket (wp_uid P) ack (pkt_fields p)) /\
+    Wrap.qname_ok qname = true.
+Proof. exact query_roundtrip. Qed.
+Print Assumptions c01_dns_query_survives.
+
+Theorem c01_dns_answer_survives : forall P fd,
+  Name.dom_ok (wp_dom P) = true -> Wrap.carries (wp_rt P) (wp_cd P) = true -> fd_ok (wp_rt P) (wp_dom P) fd = true -> forall qname ack p,
+  Wrap.qname_ok qname = true -> (ack < 65536)%N -> ochunk_ok fd p ->
+  exists w n, form_answer P (Wrap.rtype_code (wp_rt P)) qname (Responses.RPkt Responses.ENone ack (pkt_fields p)) = FOk w n /\
+              client_view P w = VPacket false ack p.
+Proof. exact answer_roundtrip_packet. Qed.
+Print Assumptions c01_dns_answer_survives.
+
+(* every downstream fragment size up to 10 000 octets is within what one answer carries, on every tunnel domain and every carrying
+   record type (the server's default is 1534; the client never asks for 8192 or more) *)
+Theorem c01_dns_fragment_bound : forall rt dom fd c,
+  Name.dom_ok dom = true -> Wrap.carries rt c = true -> (N.of_nat fd <= 10000)%N -> fd_ok rt dom fd = true.
+Proof. exact fd_ok_default. Qed.
+Print Assumptions c01_dns_fragment_bound.
+
+(* ---- non-vacuity: the hypotheses hold on histories with loss, duplication and replay, and the conclusions compute *)
+Definition ex_P1 : wparams :=    (* Base128 upstream, TXT answers with Base64 *)
+  {| wp_dom := wd "t.example.org"; wp_cu := Base128; wp_cd := Base64; wp_rt := Wrap.RTxt; wp_uid := 7 |}.
+Definition ex_P2 : wparams :=    (* Base32 upstream, NULL answers with Raw *)
+  {| wp_dom := wd "a.tunnel-9.example.net"; wp_cu := Base32; wp_cd := Raw; wp_rt := Wrap.RNull; wp_uid := 1295 |}.
+Definition ex_evs : list wev :=
+  [WWrite true [0; 46; 92; 255; 200; 1; 32; 34]%N 3; WQuery (wd "abc"); WQuery (wd "z9a"); WDeliverS 1; WDeliverS 1; WDeliverC 0;
+   WDeliverC 1; WQuery (wd "aaa"); WDeliverS 0; WWrite false [9; 0; 255; 92; 46]%N 2; WPump true 20 1 7%N (wd "q0q"); WRead false 3;
+   WDeliverS 2; WDeliverC 3].
+
+Example c01_dns_wire_nonvacuous :
+  params_ok ex_P1 1534 = true /\ wire_admissible ex_P1 1534 100 10 (winit 65534 65535) ex_evs = true /\
+  params_ok ex_P2 200 = true /\ wire_admissible ex_P2 200 100 10 (winit 65530 3) ex_evs = true /\
+  (N.of_nat 100 + N.of_nat 10 + SLACK <= M)%N /\ Nat.leb 100 RECENT = true.
+Proof. vm_compute. repeat split; try reflexivity; discriminate. Qed.
+
+(* ... and on them the run delivers exactly the octets written, through 16-bit wrap, losses and replays *)
+Example c01_dns_wire_example_run :
+  let b := base (fst (wrun ex_P1 (winit 65534 65535) ex_evs)) in
+  (rev (rd_s b) ++ in_buf (s_in b) = rev (acc_c b) /\ firstn 8 (rev (acc_c b)) = [0; 46; 92; 255; 200; 1; 32; 34]%N) /\
+  rev (rd_c b) ++ in_buf (c_in b) = [9; 0; 255; 92; 46]%N /\
+  (List.length (wqueries (fst (wrun ex_P1 (winit 65534 65535) ex_evs))) = 23 /\ in_next (s_in b) = 19%N).   (* 65534 + 21 chunks: past the 16-bit wrap *)
+Proof. vm_compute. repeat split. Qed.
+
+(* outside params_ok nothing is claimed, and rightly so: A answers whose last chunk is short cannot be packed (the answer is never
+   sent - reported, not silent), so a downstream write never arrives *)
+Example c01_dns_wire_a_records_stall :
+  let P := {| wp_dom := wd "t.example.org"; wp_cu := Base32; wp_cd := Base32; wp_rt := Wrap.RA; wp_uid := 1 |} in
+  params_ok P 100 = false /\
+  snd (wrun P (winit 0 0) [WWrite false [1; 2; 3]%N 3; WQuery (wd "aaa"); WDeliverS 0]) =
+  [WO (OWrite 1); WQ (OQuery 65535 None) 43; WSNoAnswer true false 5].
+Proof. vm_compute. split; reflexivity. Qed.
